@@ -33,7 +33,8 @@ type c08Case struct {
 	Classes []string     `json:"classes,omitempty"`
 	Scripts [][][]string `json:"scripts,omitempty"`
 	Choices []int        `json:"choices,omitempty"`
-	TLS     bool         `json:"tls,omitempty"` // state: the connection arrived over the TLS port (no client certificate)
+	TLS     bool         `json:"tls,omitempty"`     // state: the connection arrived over the TLS port (no client certificate)
+	Program []string     `json:"program,omitempty"` // runtime: password set / changed / removed while the server lives
 }
 
 func swapCase(s string) string {
@@ -387,6 +388,7 @@ func c08SchedExplorer(cs c08Case, bound int) *sched.Explorer {
 
 func c08Run(c *fw.Ctx) {
 	c08StateSearch(c)
+	c08Runtime(c)
 	n := len(c08Scripts(0))
 	for a := 0; a < n; a++ {
 		for b := 0; b < n; b++ {
@@ -462,20 +464,23 @@ func c08Replay(raw json.RawMessage) (string, bool, error) {
 		return fmt.Sprintf("history=%s state=%+v clause=%q %s", c08HistString(hist), st, clause, detail), clause != "", nil
 	}
 	x := c08SchedExplorer(cs, 0)
+	if cs.Kind == "runtime" {
+		x = c08RuntimeExplorer(cs.Program, 0)
+	}
 	run := x.New()
 	r := vrt.Run(vrt.Options{Choices: cs.Choices}, run.Body, run.AtQuiet)
 	if r.Diverged != "" {
 		return "", false, fmt.Errorf("schedule does not replay: %s", r.Diverged)
 	}
 	v := run.Verdict(r)
-	return fmt.Sprintf("scripts=%v schedule=%v clause=%q %s obs=%s", cs.Scripts, cs.Choices, v.Clause, v.Detail, v.Obs), v.Clause != "", nil
+	return fmt.Sprintf("scripts=%v program=%v schedule=%v clause=%q %s obs=%s", cs.Scripts, cs.Program, cs.Choices, v.Clause, v.Detail, v.Obs), v.Clause != "", nil
 }
 
 func init() {
 	fw.Register(&fw.Prop{
 		ID:          "C08",
 		Level:       "model_checking",
-		Rule:        "(STATE) breadth-first search over event histories on one connection of a server with requirepass=Secret1, once as a plain connection and once as a connection that arrived over the TLS port (finished handshake, no client-certificate rule); events = AUTH with each candidate of a dictionary built around the password (empty, null bulk, every strict prefix, password+suffix, +NUL, case-swapped, embedded CRLF, leading space), two-argument forms with wrong/empty users, missing and surplus arguments, forms the statement leaves open (no expectation on the reply), and probes (GET/SET via the handler, PING/ECHO/CONFIG, SELECT, an application executor); canonical state = (IsAuthrized, UserName, Password, Database) read from the live connection object through Server.Conns() at every step plus the model's 'unlocked'; depth 4 (thorough 6) or closure. (SCHED) two connections (thorough three) each running one of 8 scripts (one- and two-argument AUTH) through the real accept loop, every schedule within deviation bound 2; a handler call or non-error reply for a client that has not itself presented the password is a violation.",
+		Rule:        "(RUNTIME) 11 programs in which the required password is set, changed or removed while the server object lives (SetRequirePass / RemoveRequirePass with and without Restart, Stop+Start, CONFIG SET requirepass sent by a client) with connections opened in between: the password that counts for the gate and for AUTH is the one configured at that moment; every schedule within deviation bound 1 (thorough 2). (STATE) breadth-first search over event histories on one connection of a server with requirepass=Secret1, once as a plain connection and once as a connection that arrived over the TLS port (finished handshake, no client-certificate rule); events = AUTH with each candidate of a dictionary built around the password (empty, null bulk, every strict prefix, password+suffix, +NUL, case-swapped, embedded CRLF, leading space), two-argument forms with wrong/empty users, missing and surplus arguments, forms the statement leaves open (no expectation on the reply), and probes (GET/SET via the handler, PING/ECHO/CONFIG, SELECT, an application executor); canonical state = (IsAuthrized, UserName, Password, Database) read from the live connection object through Server.Conns() at every step plus the model's 'unlocked'; depth 4 (thorough 6) or closure. (SCHED) two connections (thorough three) each running one of 8 scripts (one- and two-argument AUTH) through the real accept loop, every schedule within deviation bound 2; a handler call or non-error reply for a client that has not itself presented the password is a violation.",
 		Assumptions: []string{"AUTH '' P, AUTH default P and three-argument AUTH carry no expectation on the reply, only the gate invariant afterwards"},
 		Run:         c08Run,
 		Replay:      c08Replay,
